@@ -1570,37 +1570,68 @@ func runE2E(cfg vhlib.Config, sum *vhlib.Summary, r *vhlib.Rng) {
 				sum.HarnessError(fmt.Sprintf("e2e worker (layout %s) failed: %s", layouts[li].Name, errs[li]))
 				continue
 			}
+			// a disagreement is repeated alone (fresh reference worker + fresh layout worker, nothing else
+			// running) before it is reported; what does not come back is counted, not reported
+			var refAgain, layAgain []e2eAnswer
+			reran := false
 			for qi, q := range qs {
 				a, b := answers[0][qi], answers[li][qi]
 				sum.Eval(fmt.Sprintf("e2e|%d|%s|%s", d, layouts[li].Name, q.SPL), true)
 				sum.Count("e2e/" + q.Family)
-				ok := a.Err == b.Err
-				if ok {
-					switch q.Mode {
-					case cmpOrdered:
-						ok = strings.Join(a.Hits, "\n") == strings.Join(b.Hits, "\n") && sameStrMultiset(a.Meas, b.Meas)
-					case cmpMultiset:
-						ok = sameStrMultiset(a.Hits, b.Hits) && sameStrMultiset(a.Meas, b.Meas)
-					case cmpCounts:
-						ok = countSeq(a.Meas) == countSeq(b.Meas) && countSeq(a.Hits) == countSeq(b.Hits)
+				if e2eSame(q, a, b) {
+					continue
+				}
+				if !reran {
+					reran = true
+					var e1, e2 string
+					refAgain, e1 = runWorker(cfg, d, 100+li, e2eScript{Events: evs, Layout: layouts[0], Queries: texts})
+					layAgain, e2 = runWorker(cfg, d, 200+li, e2eScript{Events: evs, Layout: layouts[li], Queries: texts})
+					if e1 != "" || e2 != "" {
+						refAgain, layAgain = nil, nil
 					}
 				}
-				if !ok {
-					cls := "e2e_" + q.Family + "_layout_dependent"
-					if q.Known != "" && a.Err == "" && b.Err == "" {
-						cls = q.Known
+				if refAgain != nil && e2eSame(q, refAgain[qi], layAgain[qi]) {
+					cls := "e2e_intermittent_not_reproduced/" + q.Family
+					if strings.HasPrefix(q.Family, "parallel_") && layouts[li].Procs > 1 {
+						cls = "e2e_intermittent_not_reproduced/parallel_chains_race/" + q.Family
 					}
-					got, want := append(append([]string{}, b.Hits...), b.Meas...), append(append([]string{}, a.Hits...), a.Meas...)
-					sum.Fail(cls, fmt.Sprintf("%q over %d events: layout %s (flush every %d, rotate after %d, GOMAXPROCS %d) gives %s; one block gives %s %s%s",
-						q.SPL, n, layouts[li].Name, layouts[li].FlushEvery, layouts[li].RotateAfter, layouts[li].Procs, firstDiff(got, want), "", a.Err, b.Err),
-						map[string]interface{}{"spl": q.SPL, "events": evs, "layout": layouts[li], "got": got, "want": want, "err_ref": a.Err, "err": b.Err})
+					sum.Count(cls)
+					sum.Notes = append(sum.Notes, fmt.Sprintf("not reproduced when repeated alone: %q, layout %s: %s", q.SPL, layouts[li].Name,
+						firstDiff(append(append([]string{}, b.Hits...), b.Meas...), append(append([]string{}, a.Hits...), a.Meas...))))
+					continue
 				}
+				if refAgain != nil {
+					a, b = refAgain[qi], layAgain[qi]
+				}
+				cls := "e2e_" + q.Family + "_layout_dependent"
+				if q.Known != "" && a.Err == "" && b.Err == "" {
+					cls = q.Known
+				}
+				got, want := append(append([]string{}, b.Hits...), b.Meas...), append(append([]string{}, a.Hits...), a.Meas...)
+				sum.Fail(cls, fmt.Sprintf("%q over %d events: layout %s (flush every %d, rotate after %d, GOMAXPROCS %d) gives %s; one block gives %s %s%s",
+					q.SPL, n, layouts[li].Name, layouts[li].FlushEvery, layouts[li].RotateAfter, layouts[li].Procs, firstDiff(got, want), "", a.Err, b.Err),
+					map[string]interface{}{"spl": q.SPL, "events": evs, "layout": layouts[li], "got": got, "want": want, "err_ref": a.Err, "err": b.Err})
 			}
 		}
 		if d == 0 {
 			sum.Sample(map[string]interface{}{"e2e_events": len(evs), "layouts": layouts, "queries": texts, "reference_answer_head": answers[0][0]})
 		}
 	}
+}
+
+func e2eSame(q e2eQuery, a, b e2eAnswer) bool {
+	if a.Err != b.Err {
+		return false
+	}
+	switch q.Mode {
+	case cmpOrdered:
+		return strings.Join(a.Hits, "\n") == strings.Join(b.Hits, "\n") && sameStrMultiset(a.Meas, b.Meas)
+	case cmpMultiset:
+		return sameStrMultiset(a.Hits, b.Hits) && sameStrMultiset(a.Meas, b.Meas)
+	case cmpCounts:
+		return countSeq(a.Meas) == countSeq(b.Meas) && countSeq(a.Hits) == countSeq(b.Hits)
+	}
+	return false
 }
 
 func sameStrMultiset(a, b []string) bool {
